@@ -402,6 +402,21 @@ def r_rt_table(e, R):
                 break
         ok = t is not None and any(h.type is None or norm(h.type) in ("Exception", "BaseException") for h in t.handlers) and \
             not any(isinstance(x, ast.Raise) for h in t.handlers for x in ast.walk(h))
+        # "already dropped": the entry is deleted before the cleanup function runs -- a cleanup that raises must not leave a zero-count
+        # entry behind (a later stray MAYBE_UNLINK would go to -1 unreported, the end-of-life sweep would destroy the name again)
+        g_ = e.cfg(f)
+        cn_ = [n for n in g_.nodes if n.kind == "stmt" and any(x is c for x in calls_in(n))]
+        dels = [n for n in g_.nodes if n.kind == "stmt" and isinstance(n.ast, ast.Delete) and any(
+            isinstance(tg, ast.Subscript) and isinstance(tg.value, ast.Subscript) and isinstance(tg.value.value, ast.Name) and tg.value.value.id == roles[3]
+            for tg in n.ast.targets)]
+        if cn_ and _inside(e, c, tr):
+            in_dispatch = any(isinstance(p_, ast.If) for p_ in _ancestors_until(e, c, tr))
+            if in_dispatch:
+                R.check(any(g_.dominates(d, cn_[0]) for d in dels), "R-RT-TABLE", "the entry is deleted before its cleanup function is called", f.short,
+                        f"del {roles[3]}[..][..] before {norm(c)[:40]}",
+                        "the registry entry is deleted only after the cleanup function returned: when the cleanup raises (the resource was removed by somebody else, "
+                        "a permission error) the entry stays with count 0, a later MAYBE_UNLINK goes to -1 without being reported and the end-of-life sweep destroys the "
+                        "name a second time", e.loc(f, c))
         R.check(ok, "R-RT-TABLE", "a failing cleanup is caught and reported, the count is already dropped", f.short, norm(c),
                 "a failing cleanup function propagates (or is silently lost): the request barrier reports it as a malformed request", e.loc(f, c))
     R.floor("R-RT-TABLE", 30)
@@ -681,6 +696,15 @@ def _parents(e, node, stop):
     return out
 
 
+def _ancestors_until(e, node, stop):
+    out = []
+    p = e.prog.parent.get(id(node))
+    while p is not None and p is not stop:
+        out.append(p)
+        p = e.prog.parent.get(id(p))
+    return out
+
+
 def stdlib_tracker_literals():
     """Command literals the stdlib client sends (read from the interpreter's
     own multiprocessing/resource_tracker.py, not imported)."""
@@ -929,6 +953,16 @@ def r_tracker_ship(e, R):
             fdv = n.targets[0].id
     R.check(fdv is not None, "R-TRACKER-SHIP", "_launch: obtains the tracker fd through getfd() (which ensures the tracker runs)", la.short, "getfd()",
             "the launch no longer obtains the tracker fd", e.loc(la, la.node))
+    # the fd kept open for the child and the fd/pid written into its preparation data must be those of ONE tracker: getfd() (which may
+    # relaunch a dead tracker on another descriptor) runs before the preparation data is computed, and not again in between
+    gfd = [n for n in lg.nodes for c in calls_in(n) if isinstance(c.func, ast.Attribute) and c.func.attr == "getfd"]
+    prep = [n for n in lg.nodes for c in calls_in(n) if gp.qualname in e.callees_of(c)]
+    if gfd and prep:
+        R.check(all(any(lg.dominates(x, p_) for x in gfd) for p_ in prep) and not any(lg.dominates(p_, x) for p_ in prep for x in gfd), "R-TRACKER-SHIP",
+                "_launch: the tracker fd is obtained before the preparation data records the tracker's fd/pid", la.short, "getfd() before get_preparation_data()",
+                "the tracker fd kept for the child is obtained after the preparation data was computed: if the tracker dies in between (while the process object is "
+                "pickled), getfd() relaunches it on another descriptor, the child is told the old number, and its first tracked operation fails with EBADF "
+                "instead of reaching the tree's tracker", e.loc(la, gfd[0].ast))
     fe = [n for n in lg.nodes for c in calls_in(n) if e.callees_of(c) & {"loky.backend.fork_exec:fork_exec"}]
     from .process import makes_inheritable, keep_list_attr
     KEEPL = keep_list_attr(e)
